@@ -20,8 +20,8 @@ MANIFEST = {
     "text": "Grid: lengths ratios {(1,1,1),(1,2.5,6),(6,1,2.5),(2.5,6,1)} x angle triples from {45,60,75,90,105,109.47,120,135}^3 "
             "that satisfy the positivity condition (quick: every second value) x 30 rotations (quick 9) x per-frame stacking: "
             "norms, mutual angles (alpha between b and c, ...), a along x, b in the xy-plane, positive determinant, volume = "
-            "triple product, and round trip through a rotated vector description. Histories: 15-op alphabet {set vectors "
-            "(cubic / rotated triclinic / per-frame varying), set lengths, set angles, set lengths None, set angles None, "
+            "triple product, and round trip through a rotated vector description. Histories: 16-op alphabet {set vectors "
+            "(cubic / half-turn-rotated orthorhombic / rotated triclinic / per-frame varying), set lengths, set angles, set lengths None, set angles None, "
             "vectors None, t[::2], t[0], join, stack, atom_slice, h5 save+load, copy} to depth 2 (3) from {no cell, full cell, "
             "1 frame}; after each step lengths/angles equal the model, have n_frames rows, vectors exist iff both do, and "
             "volumes equal the triple product.",
@@ -118,14 +118,35 @@ def grid_job(args):
     # ---- (b) set the vectors from every rotated description, read lengths/angles/volume back
     V64 = np.array([grids.lengths_angles_to_vectors(*L[f], *A[f]) for f in range(F)])
     rots = grids.rotations(quick, seed)
+    a_tol_all = np.degrees(32 * EPS / np.sin(np.radians(A)).min(1))[:, None] + 1e-5
+    # the same cells once all in one trajectory and once as trajectories that hold ONE cell shape class only
+    # (all-orthorhombic, all-one-angle-skewed, ...): shortcuts that test "every frame is ..." are reached only then
+    n90 = (np.abs(A - 90.0) < 1e-9).sum(1)
+    groups = [np.arange(F)] + [np.nonzero(n90 == k)[0] for k in (3, 2, 1, 0)]
     for R in rots:
-        t2 = md.Trajectory(np.zeros((F, 2, 3), np.float32), _top(2))
-        t2.unitcell_vectors = (V64 @ R.T).astype(np.float32)
-        cmp("rotated-lengths", t2.unitcell_lengths.astype(float), L, 16 * EPS * L.max(1)[:, None] * np.ones(3))
-        a_tol = np.degrees(32 * EPS / np.sin(np.radians(A)).min(1))[:, None] + 1e-5
-        cmp("rotated-angles", t2.unitcell_angles.astype(float), A, a_tol)
-        cmp("rotated-volume", t2.unitcell_volumes[:, None], vol_true[:, None], (256 * EPS * vol_true * cond ** 2)[:, None])
-        n_eval += 3 * F
+        for gi, g in enumerate(groups):
+            if len(g) == 0 or (gi > 0 and len(g) == F):
+                continue
+            t2 = md.Trajectory(np.zeros((len(g), 2, 3), np.float32), _top(2))
+            t2.unitcell_vectors = (V64[g] @ R.T).astype(np.float32)
+
+            def cmpg(name, got, want, tol):
+                nonlocal worst
+                e = np.abs(got - want) / tol
+                worst = max(worst, float(e.max()))
+                for f in np.unique(np.nonzero(e > 1)[0])[:3]:
+                    rec(name + ("" if gi == 0 else "|single-shape-class-trajectory"), int(g[f]),
+                        "%s %s, expected %s" % (name, got[f].tolist(), want[f].tolist()))
+
+            cmpg("rotated-lengths", t2.unitcell_lengths.astype(float), L[g], 16 * EPS * L[g].max(1)[:, None] * np.ones(3))
+            cmpg("rotated-angles", t2.unitcell_angles.astype(float), A[g], a_tol_all[g])
+            cmpg("rotated-volume", t2.unitcell_volumes[:, None], vol_true[g][:, None], (256 * EPS * vol_true[g] * cond[g] ** 2)[:, None])
+            V2 = t2.unitcell_vectors.astype(np.float64)
+            ori2 = np.abs(np.stack([V2[:, 0, 1], V2[:, 0, 2], V2[:, 1, 2]], 1))
+            cmpg("rotated-orientation", ori2, np.zeros_like(ori2), 64 * EPS * L[g].max(1)[:, None] * np.ones(3))
+            if (np.linalg.det(V2) <= 0).any():
+                rec("rotated-determinant", int(g[int(np.argmax(np.linalg.det(V2) <= 0))]), "read-back vectors have non-positive determinant")
+            n_eval += 5 * len(g)
     return viol, n_eval, F * (1 + len(rots)), worst
 
 
@@ -138,6 +159,9 @@ def _vec_menu(kind, n):
     from vlib import grids
     if kind == "cubic":
         return np.array([np.eye(3) * 3.0] * n)
+    if kind == "ortho-halfturn":
+        # an orthorhombic cell described after a half-turn about x: a diagonal matrix with two negative entries
+        return np.array([np.diag([3.0, -3.5, -4.0])] * n)
     if kind == "tricl-rot":
         v = grids.lengths_angles_to_vectors(3.0, 3.5, 4.0, 75.0, 100.0, 115.0)
         R = grids.generic_rotations(1, 3)[0]
@@ -159,7 +183,7 @@ class CellModel:
         return self.L is not None and self.A is not None
 
     def enabled(self):
-        ops = [("vectors", "cubic"), ("vectors", "tricl-rot"), ("vectors", "varying"), ("lengths",), ("angles",),
+        ops = [("vectors", "cubic"), ("vectors", "ortho-halfturn"), ("vectors", "tricl-rot"), ("vectors", "varying"), ("lengths",), ("angles",),
                ("lengths_none",), ("angles_none",), ("vectors_none",), ("idx0",), ("copy",), ("join",), ("stack",)]
         if self.n >= 2:
             ops.append(("stride2",))
